@@ -106,8 +106,11 @@ def fmt2(ctx: Ctx, which: str = "C18") -> None:
     # no other place may decide visibility from `.hide` alone: every test that reads a `.hide` attribute
     # in the formatting / summary code must have the form `<x>.hide and not <show_hidden_frames>`
     known = {id(s) for q, hide, show, act in sites for s in ast.walk(mod.fn(q)) if isinstance(s, ast.If) and hide in norm(s.test)}
+    inside_known_test = {id(x) for q, hide, show, act in sites for s_ in ast.walk(mod.fn(q)) if isinstance(s_, ast.If) and hide in norm(s_.test) for x in ast.walk(s_.test)}
     for n in ast.walk(mod.tree):
         tests = []
+        if mod.in_dead_helper(n) or id(n) in inside_known_test:
+            continue
         if isinstance(n, (ast.If, ast.While, ast.IfExp)) and id(n) not in known:
             tests = [n.test]
         elif isinstance(n, ast.comprehension):
@@ -229,6 +232,8 @@ def fmt5(ctx: Ctx) -> None:
     mod = ctx.P.mod("_types")
     n = 0
     for q in FORMATTERS + ["Stack.format_flat", "Stack._format_error", "Stack._format_header"]:
+        if q == "Stack._format_error" and not mod.has(q):
+            continue  # moved / inlined: its lines are seen where they are produced now
         fn = mod.fn(q)
         ctx.R.saw(mod, q)
         okv = {"line", "subline"}
@@ -257,7 +262,7 @@ def fmt5(ctx: Ctx) -> None:
     if n < 12:
         raise AnalysisError(f"FMT-5: {n} produced lines found (>= 12 confirmed by hand)")
     # _format_error splits embedded newlines
-    fe = mod.fn("Stack._format_error")
+    fe = mod.fn("Stack._format_error") if mod.has("Stack._format_error") else mod.fn("Stack._format")
     if "splitlines(True)" in norm(fe) or "splitlines(keepends=True)" in norm(fe):
         ctx.R.ok("FMT-5", "traceback chunks are split into single lines keeping their terminators")
     else:
@@ -388,17 +393,52 @@ def fmt8(ctx: Ctx) -> None:
     mod = ctx.P.mod("_types")
     fn = mod.fn("Stack.format_flat")
     ctx.R.saw(mod, "Stack.format_flat")
-    body = [s for s in fn.body if not (isinstance(s, ast.Expr) and isinstance(s.value, ast.Constant))]
-    txt = [norm(s) for s in body]
-    ok = len(body) == 5 and txt[0] == "lines = [self._format_header()]" and isinstance(body[1], ast.If) and norm(body[1].test) == "self.frames" \
-        and [norm(x) for x in body[1].body] == ["lines.extend(self.as_stdlib_summary(show_contexts=show_contexts).format())"] \
-        and isinstance(body[2], ast.If) and norm(body[2].test) == "self.leaf is not None" \
-        and isinstance(body[3], ast.If) and norm(body[3].test) == "self.error is not None" and [norm(x) for x in body[3].body] == ["lines.extend(self._format_error())"] \
-        and txt[4] == "return lines"
-    if ok:
-        ctx.R.ok("FMT-8", "format_flat = header, the stdlib rendering of the summary iff frames, leaf line, error lines")
-    else:
-        ctx.R.fail("FMT-8", mod, fn, "format_flat must be: header; StackSummary.format() of as_stdlib_summary(show_contexts=show_contexts) iff there are frames; the leaf line; the error lines", construct="format_flat body")
+    import copy
+    from ..stepper import Stepper, enumerate_table
+    from ..emit import Unsupported
+    body = copy.deepcopy([s_ for s_ in fn.body if not (isinstance(s_, ast.Expr) and isinstance(s_.value, ast.Constant))])
+    FR, LF, ER = "self.frames", "self.leaf is None", "self.error is None"
+
+    def run(assign):
+        st = Stepper(assign)
+        st.on_loop = lambda loop, env: None
+        st.opaque = {"lines"}
+        env: Dict[str, ast.AST] = {}
+        k, v = st.run(body, env)
+        seq = []
+        for e in st.effects:
+            if e.startswith("lines = "):
+                seq.append("HEADER" if e == "lines = [self._format_header()]" else "INIT:" + e[:40])
+                continue
+            if not e.startswith(("lines.append(", "lines.extend(", "lines +=")):
+                continue
+            if "as_stdlib_summary(" in e:
+                seq.append("SUMMARY" if "as_stdlib_summary(show_contexts=show_contexts).format()" in e else "SUMMARY?:" + e[:60])
+            elif "self.leaf" in e:
+                seq.append("LEAF")
+            elif "_format_error" in e or "Error while extracting" in e or "self.error" in e:
+                seq.append("ERROR")
+            else:
+                seq.append("OTHER:" + e[:40])
+        ret = norm(v) if (k == "return" and v is not None) else k
+        return (tuple(seq), ret)
+
+    try:
+        atoms, rows = enumerate_table(run, [FR, LF, ER])
+    except Unsupported as ex:
+        ctx.R.undecided("FMT-8", f"format_flat is outside the step interpreter: {ex}")
+        rows = []
+    bad = None
+    for assign, (seq, ret) in rows:
+        want = ("HEADER",) + (("SUMMARY",) if assign[FR] else ()) + (() if assign[LF] else ("LEAF",)) + (() if assign[ER] else ("ERROR",))
+        if (seq != want or ret != "lines") and bad is None:
+            bad = (assign, seq, ret, want)
+    if rows and bad is None:
+        ctx.R.ok("FMT-8", "format_flat = header, the stdlib rendering of the summary iff frames, leaf line iff leaf, error lines iff error", f"{len(rows)} combinations of {atoms}")
+    elif bad is not None:
+        assign, seq, ret, want = bad
+        ctx.R.fail("FMT-8", mod, fn, f"format_flat must be: header; StackSummary.format() of as_stdlib_summary(show_contexts=show_contexts) iff there are frames; the leaf line; the error lines. "
+                   f"With {dict((k_, v_) for k_, v_ in assign.items())} it produces {list(seq)} (returns {ret}) instead of {list(want)}", construct="format_flat body")
     sm = mod.fn("Stack.as_stdlib_summary")
     r = [s for s in ast.walk(sm) if isinstance(s, ast.Return)]
     if r and all(x.value is not None and norm(x.value).startswith("traceback.StackSummary.from_list(self._frame_summaries(") for x in r):
@@ -780,7 +820,8 @@ def fmt10_11(ctx: Ctx) -> None:
         fn = mod.fn(q)
         for what, attr, needle in (("leaf", "self.leaf", leaf_mark), ("error", "self.error", "self._format_error()")):
             sites = [st for st in ast.walk(fn) if isinstance(st, ast.Expr) and isinstance(st.value, ast.Call) and norm(st.value.func) in ("lines.append", "lines.extend")
-                     and (needle in norm(st) or (what == "leaf" and "self.leaf" in norm(st)) or (what == "error" and "_format_error" in norm(st)))]
+                     and (needle in norm(st) or (what == "leaf" and "self.leaf" in norm(st)) or (what == "error" and "_format_error" in norm(st))
+                          or any(isinstance(a_, ast.If) and attr in norm(a_.test) for a_ in mod.ancestors(st) if any(a_ is x for x in ast.walk(fn))))]
             if not sites:
                 ctx.R.fail("FMT-11", mod, fn, f"{q} never renders the {what}: it cannot be recovered from the text", construct=f"{q}: {what} line missing")
                 continue
@@ -799,6 +840,9 @@ def fmt10_11(ctx: Ctx) -> None:
                     ctx.R.fail("FMT-11", mod, sites[0], f"{q}: the {what} must be rendered exactly when {attr} is not None; counterexample {cex}", construct=f"{q}: {what} guard")
             else:
                 ctx.R.undecided("FMT-11", f"{q}: {what} line is under {len(gs)} guards")
+    if not mod.has("Stack._format_error"):
+        ctx.R.note("FMT-11: Stack._format_error no longer exists as a generator; the error lines are checked where they are produced")
+        return
     fe = mod.fn("Stack._format_error")
     ys = [y for y in ast.walk(fe) if isinstance(y, ast.Yield) and y.value is not None]
     if len(ys) >= 2 and any("subline" in norm(y.value) or "line" in norm(y.value) for y in ys[1:]):
